@@ -152,10 +152,13 @@ func ApplyInclude(ctx context.Context, workingDir string, environment types.Mapp
 			ConfigFiles: types.ToConfigFiles(r.Path),
 			Environment: environment.Clone().Merge(envFromFile),
 		}
-		loadOptions.Interpolate = &interp.Options{
-			Substitute:      options.Interpolate.Substitute,
-			LookupValue:     config.LookupEnv,
-			TypeCastMapping: options.Interpolate.TypeCastMapping,
+		// Interpolate may be nil (interpolation is then skipped, see loadYamlFile)
+		if options.Interpolate != nil {
+			loadOptions.Interpolate = &interp.Options{
+				Substitute:      options.Interpolate.Substitute,
+				LookupValue:     config.LookupEnv,
+				TypeCastMapping: options.Interpolate.TypeCastMapping,
+			}
 		}
 		imported, err := loadYamlModel(ctx, config, loadOptions, &cycleTracker{}, included)
 		if err != nil {
